@@ -26,3 +26,15 @@ func init() {
 		Rule:        "bounded-exhaustive: explicit Broadcast for every (source,target) pair of the target set (new leading dims, size-1 dims expanded, both, factor 1 included); Add/Sub/Mul/Div for every operand pair broadcasting to every target and every tracked subset; Dot and MatMul for every broadcast-compatible batch pair; upstream all-ones and non-uniform W. Oracle: operand gradient has the operand's own shape and equals the SUM of upstream*local derivative over all copies. Non-trivial: a tracked operand is expanded by a factor > 1. A mismatch is a KNOWN-FINDING only if the observed gradients equal the alternative model 'mean instead of sum over the expanded copies' (listed finding broadcast_avg); anything else is a VIOLATION; factor-1 cases must match the exact model.",
 		Assumptions: []string{"reference VJPs validated by selftest", "bounded target shapes: quick rank<=3, thorough rank<=5 over {1,2,3}"}})
 }
+
+func init() {
+	register(&Check{ID: "C01", Fn: checkC01,
+		Rule:        "explicit enumeration of ALL straight-line programs over two [2]-leaves with up to 3 (thorough 4; 5 over {Scale,Add,Mul}) operations from {Scale, Sin, Exp, Add(i<=j), Mul(i<=j), Sub(i,j), Concat+Slice(i,j)}, operands chosen among all earlier tensors (every fan-out/reconvergence pattern), x 3 tracked masks x every non-leaf tensor as root; all ordered pairs (thorough: up to 2 ops each, plus triples) of programs over the same leaves back-propagated in sequence; four deep families (y=y+y, y=y*y, diamond chain, consume-all-earlier) to depth 24 (48). Oracle: model reverse pass in topological order on every tensor (nil-ness, shape, value), and backward-rule applications counted through the verif hook <= (E+1)^2 with E the reachable edges of the REAL graph (budget enforced by the hook, so an exponential walk is cut off and reported). Non-trivial: reachable sub-DAG has an interior tensor with >= 2 consumers or an op using one operand twice.",
+		Assumptions: []string{"reference reverse pass validated against finite differences (selftest)", "programs whose model forward values leave [-1e6,1e6] are skipped and counted", "no expanding operation in the alphabet (expansion is C07's subject)"}})
+}
+
+func init() {
+	register(&Check{ID: "C08", Fn: checkC08, Shards: 1, Procs: 16,
+		Rule:        "explicit-state breadth-first search over API histories: events NewLeaf(tracked|untracked), Scale(i), Mul(i<=j), Concat(i,j), Gt(i<=j), BackPropagate(i), ResetGradContext(i,true|false) over a pool of <=5 tensors to depth 5 (thorough: pool 5 depth 7 and pool 6 depth 6); enabledness = the property's own preconditions (a),(b); every transition replays the history on FRESH real tensors and compares EVERY tensor with the model (forward values, Gradient nil-ness and accumulated values, tracked/spent flags and back-edge presence through the verif hook, gradient tensors untracked, behavioural spent probe). States deduplicated on the full abstract model state (creation kind, operands, tracked, spent, has-gradient, accumulation count per tensor). Every transition counts as non-trivial (all are executed and compared).",
+		Assumptions: []string{"dedup key contains every field the real transition functions read; conformance of those fields is itself checked in every visited state", "comparison of a spent tensor is not generated (statement silent)", "pool/depth bound"}})
+}
